@@ -1558,6 +1558,12 @@ impl ParamsOxide {
         self.greedy_parsing = self.flags & TDEFL_GREEDY_PARSING_FLAG != 0;
     }
 
+    /// Largest match distance allowed by the window size the stream was set up with
+    /// (and, for zlib, declares in its header).
+    fn max_match_dist(&self) -> usize {
+        1usize << cmp::max(self.window_bits_max, 8)
+    }
+
     /// Reset state, saving settings.
     fn reset(&mut self) {
         self.block_index = 0;
@@ -1976,6 +1982,7 @@ fn compress_normal(d: &mut CompressorOxide, callback: &mut CallbackOxide) -> boo
     let mut saved_lit = d.params.saved_lit;
     let mut saved_match_dist = d.params.saved_match_dist;
     let mut saved_match_len = d.params.saved_match_len;
+    let max_match_dist = d.params.max_match_dist();
 
     while src_pos < in_buf.len() || (d.params.flush != TDEFLFlush::None && lookahead_size != 0) {
         let in_buf_left = &in_buf[src_pos..];
@@ -2072,7 +2079,7 @@ fn compress_normal(d: &mut CompressorOxide, callback: &mut CallbackOxide) -> boo
             // Try to find a match for the bytes at the current position.
             let dist_len = d.dict.find_match(
                 lookahead_pos,
-                d.dict.size,
+                cmp::min(d.dict.size, max_match_dist),
                 lookahead_size as u32,
                 cur_match_dist,
                 cur_match_len,
@@ -2174,6 +2181,7 @@ fn compress_fast(d: &mut CompressorOxide, callback: &mut CallbackOxide) -> bool 
     };
 
     debug_assert!(d.lz.code_position < LZ_CODE_BUF_SIZE - 2);
+    let max_match_dist = d.params.max_match_dist();
 
     while src_pos < in_buf.len() || (d.params.flush != TDEFLFlush::None && lookahead_size > 0) {
         let mut dst_pos = (lookahead_pos + lookahead_size) & LZ_DICT_SIZE_MASK;
@@ -2215,7 +2223,7 @@ fn compress_fast(d: &mut CompressorOxide, callback: &mut CallbackOxide) -> bool 
             d.dict.b.hash[hash as usize] = lookahead_pos as u16;
 
             let mut cur_match_dist = (lookahead_pos - probe_pos) as u16;
-            if cur_match_dist as usize <= d.dict.size {
+            if cur_match_dist as usize <= cmp::min(d.dict.size, max_match_dist) {
                 probe_pos &= LZ_DICT_SIZE_MASK;
 
                 let trigram = d.dict.read_unaligned_u32(probe_pos) & 0xFF_FFFF;
